@@ -1387,7 +1387,7 @@ class PolarsModel(data_algebra.data_model.DataModel):
         sk = None
         if (blocks_in.record_keys is not None) and (len(blocks_in.record_keys) > 0):
             # ensure sorted in record order
-            split = [s.sort(blocks_in.record_keys) for s in split]
+            split = [s.sort(blocks_in.record_keys, nulls_last=True) for s in split]
             # capture the record keys
             sk = split[0][blocks_in.record_keys]
             # rows are matched by position below: every block must hold the same records
@@ -1420,7 +1420,7 @@ class PolarsModel(data_algebra.data_model.DataModel):
         else:
             res = pl.concat(split, how="horizontal")
         if (blocks_in.record_keys is not None) and (len(blocks_in.record_keys) > 0):
-            res = res.sort(blocks_in.record_keys)
+            res = res.sort(blocks_in.record_keys, nulls_last=True)
         # the declared columns in the declared order (blocks come in data order, a level no row carries is all missing)
         res = res.select(
             [
@@ -1491,9 +1491,11 @@ class PolarsModel(data_algebra.data_model.DataModel):
             rows, how="vertical_relaxed"
         )  # value columns may differ in type
         if (blocks_out.record_keys is not None) and (len(blocks_out.record_keys) > 0):
-            res = res.sort(blocks_out.record_keys + blocks_out.control_table_keys)
+            res = res.sort(
+                blocks_out.record_keys + blocks_out.control_table_keys, nulls_last=True
+            )
         else:
-            res = res.sort(blocks_out.control_table_keys)
+            res = res.sort(blocks_out.control_table_keys, nulls_last=True)
         res = res.select(blocks_out.block_columns)  # the declared column order
         return res
 
